@@ -935,6 +935,7 @@ class Scene:
         self.bnames = BLOCKS[:nblocks]
         # (block, kind, name) -> list of (description, getter(f) -> handle)
         self.paths = {}
+        self.held = {}        # (key, desc) -> handle obtained earlier through that path and kept alive
         f = self.f
         sec = f.create_section("sec", "t")
         sec.create_section("sub", "t")
@@ -972,6 +973,23 @@ class Scene:
         for key, ps in self.paths.items():
             if pred(key):
                 ps[:] = [p for p in ps if p[0] != desc]
+                self.held.pop((key, desc), None)
+
+    def views(self, key):
+        """every way the entity is seen right now: a freshly navigated handle per path, plus the handle that was
+        obtained through the same path earlier and kept alive (a per-handle cache must not make the two differ)"""
+        out = []
+        for desc, getter in list(self.paths[key]):
+            out.append((desc, lambda f, g=getter: g(f)))
+            h = self.held.get((key, desc))
+            if h is not None:
+                out.append((desc + " (handle kept from earlier)", lambda f, h=h: h))
+            else:
+                try:
+                    self.held[(key, desc)] = getter(self.f)
+                except Exception:
+                    pass
+        return out
 
     def fail(self, what, observed, required, site):
         self.fails.append(Failure(what, list(self.log), observed, required, site))
@@ -987,20 +1005,25 @@ class Scene:
             pass
 
     def reopen(self):
+        self.held = {}
         self.f.close()
         self.f = nixio.File.open(self.path, self.rng.choice([nixio.FileMode.ReadWrite, nixio.FileMode.ReadOnly]))
         self.log.append(["reopen"])
         self.check_all("after reopen")
+        self.held = {}
         self.f.close()
         self.f = nixio.File.open(self.path, nixio.FileMode.ReadWrite)
 
     def get(self, key, which=None):
         ps = self.paths[key]
         desc, getter = ps[which if which is not None else self.rng.randrange(len(ps))]
+        h = self.held.get((key, desc))
+        if h is not None and which is None and self.rng.random() < 0.4:
+            return desc + " (handle kept from earlier)", h
         return desc, getter(self.f)
 
     def check_entity(self, key, when=""):
-        ps = self.paths[key]
+        ps = self.views(key)
         ref = None
         for desc, getter in ps:
             self.evals += 1
@@ -1192,7 +1215,7 @@ class Scene:
         for key, ps in self.paths.items():
             ps[:] = [p for p in ps if p[0] != label]
         self.alias(sk[0], sk[1], sk[2], label, lambda f, ok=ok: self.paths[ok][0][1](f).metadata)
-        for d, g in self.paths[ok]:
+        for d, g in self.views(ok):
             m = g(self.f).metadata
             if m is None or m.id != sec.id:
                 self.fail("metadata set through %s is not visible through %s" % (odesc, d),
@@ -1207,12 +1230,31 @@ class Scene:
         val = rng.choice(UNITS if attr == "unit" else [v for v in STRS if not (attr == "type" and v is None)])
         self.log.append(["set", list(key), attr, val, "via " + desc])
         setattr(e, attr, val)
-        for d, g in self.paths[key]:
+        for d, g in self.views(key):
             self.evals += 1
             got = getattr(g(self.f), attr)
             if got != val:
                 self.fail("%s = %r written through %s reads %r through %s" % (attr, val, desc, got, d), got, val,
                           "alias-write")
+
+    def do_calib(self):
+        """calibration set and cleared again through one path: every other path (fresh or kept handle) reads the
+        same content at each stage; the array is left uncalibrated"""
+        rng = self.rng
+        key = rng.choice([k for k in self.paths if k[1] == "data_array"])
+        self.check_entity(key, "before a calibration change")
+        desc, e = self.get(key)
+        coeffs = rng.choice([(1.0, 2.0), (0.5,), (0.0, 0.0, 1.0), None])
+        origin = rng.choice([None, 0.5, -2.0]) if coeffs is not None else rng.choice([0.5, -2.0])
+        self.log.append(["set calibration", list(key), coeffs, origin, "via " + desc])
+        e.polynom_coefficients = coeffs
+        e.expansion_origin = origin
+        self.check_entity(key, "after a calibration change through %s" % desc)
+        desc2, e2 = self.get(key)
+        self.log.append(["clear calibration", list(key), "via " + desc2])
+        e2.polynom_coefficients = None
+        e2.expansion_origin = None
+        self.check_entity(key, "after clearing the calibration through %s" % desc2)
 
     def do_write(self):
         rng = self.rng
@@ -1222,7 +1264,7 @@ class Scene:
         data = np.array([rng.randrange(-20, 40) / 4.0 for _ in range(int(np.prod(shape)))]).reshape(shape)
         self.log.append(["write data", list(key), [float(v) for v in data.reshape(-1)], "via " + desc])
         e.write_direct(data)
-        for d, g in self.paths[key]:
+        for d, g in self.views(key):
             self.evals += 1
             got = np.array(g(self.f)[:])
             if got.shape != data.shape or not np.array_equal(got, data):
@@ -1596,7 +1638,8 @@ def _scene_run(ctx, rng, steps, tag):
         sc.dims_setup()
         sc.refused_link_keeps_ticks()
         acts = [(sc.do_append, 0.26), (sc.do_role, 0.1), (sc.do_feature, 0.07), (sc.do_metadata, 0.07),
-                (sc.do_mutate, 0.16), (sc.do_write, 0.1), (sc.do_dim, 0.2), (sc.reopen, 0.04)]
+                (sc.do_mutate, 0.16), (sc.do_write, 0.1), (sc.do_dim, 0.2), (sc.reopen, 0.04),
+                (sc.do_calib, 0.06)]
         tot = sum(w for _, w in acts)
         for _ in range(steps):
             r = rng.random() * tot
